@@ -2,6 +2,402 @@
    when the model was last validated against the code). Compared with the regenerated VGen.SkelC16 in VProps/PinC16.lean. -/
 namespace VPins.C16
 
+def fclient_client_Client_CreateMediaDownloadRequest : List String := [
+  "func func(ctx context.Context, matrixServer spec.ServerName, mediaID string) (*http.Response, error)",
+  "requestURL := \"matrix://\" + string(matrixServer) + \"/_matrix/media/v3/download/\" + string(matrixServer) + \"/\" + mediaID + \"?allow_remote=false\"",
+  "req, err := http.NewRequest(\"GET\", requestURL, nil)",
+  "if err != nil {",
+  "return nil, err",
+  "}",
+  "return fc.DoHTTPRequest(ctx, req)"
+]
+
+def fclient_client_Client_DoHTTPRequest : List String := [
+  "func func(ctx context.Context, req *http.Request) (*http.Response, error)",
+  "reqID := util.RandomString(12)",
+  "logger := util.GetLogger(ctx).WithFields(logrus.Fields{\"out.req.ID\": reqID, \"out.req.method\": req.Method, \"out.req.uri\": req.URL})",
+  "logger.Trace(\"Outgoing request\")",
+  "newCtx := util.ContextWithLogger(ctx, logger)",
+  "if fc.userAgent != \"\" {",
+  "req.Header.Set(\"User-Agent\", fc.userAgent)",
+  "}",
+  "start := time.Now()",
+  "resp, err := fc.client.Do(req.WithContext(newCtx))",
+  "if err != nil {",
+  "logger.WithContext(ctx).WithField(\"error\", err).Debug(\"Outgoing request failed\")",
+  "return nil, err",
+  "}",
+  "logger.WithFields(logrus.Fields{\"out.req.code\": resp.StatusCode, \"out.req.duration_ms\": int(time.Since(start) / time.Millisecond)}).Trace(\"Outgoing request returned\")",
+  "return resp, nil"
+]
+
+def fclient_client_Client_DoRequestAndParseResponse : List String := [
+  "func func(ctx context.Context, req *http.Request, result interface{}) error",
+  "response, err := fc.DoHTTPRequest(ctx, req)",
+  "if response != nil {",
+  "defer response.Body.Close()",
+  "}",
+  "if err != nil {",
+  "return err",
+  "}",
+  "if response.StatusCode/100 != 2 {",
+  "var contents []byte",
+  "contents, err = io.ReadAll(response.Body)",
+  "if err != nil {",
+  "return err",
+  "}",
+  "var wrap error",
+  "var respErr gomatrix.RespError",
+  "if _ = json.Unmarshal(contents, &respErr); respErr.ErrCode != \"\" {",
+  "wrap = respErr",
+  "}",
+  "msg := fmt.Sprintf(\"Failed to %s JSON (hostname %q path %q)\", req.Method, req.Host, req.URL.Path)",
+  "if wrap == nil {",
+  "msg += \": \" + string(contents)",
+  "}",
+  "return gomatrix.HTTPError{Code: response.StatusCode, Message: msg, WrappedError: wrap, Contents: contents}",
+  "}",
+  "if err = json.NewDecoder(response.Body).Decode(result); err != nil {",
+  "return err",
+  "}",
+  "return nil"
+]
+
+def fclient_client_Client_GetServerKeys : List String := [
+  "func func(ctx context.Context, matrixServer spec.ServerName) (gomatrixserverlib.ServerKeys, error)",
+  "url := url.URL{Scheme: \"matrix\", Host: string(matrixServer), Path: \"/_matrix/key/v2/server\"}",
+  "var body gomatrixserverlib.ServerKeys",
+  "req, err := http.NewRequest(\"GET\", url.String(), nil)",
+  "if err != nil {",
+  "return body, err",
+  "}",
+  "err = fc.DoRequestAndParseResponse(ctx, req, &body)",
+  "return body, err"
+]
+
+def fclient_client_Client_GetVersion : List String := [
+  "func func(ctx context.Context, s spec.ServerName) (res Version, err error)",
+  "url := url.URL{Scheme: \"matrix\", Host: string(s), Path: \"/_matrix/federation/v1/version\"}",
+  "req, err := http.NewRequest(\"GET\", url.String(), nil)",
+  "if err != nil {",
+  "return",
+  "}",
+  "err = fc.DoRequestAndParseResponse(ctx, req, &res)",
+  "return"
+]
+
+def fclient_client_Client_LookupServerKeys : List String := [
+  "func func(ctx context.Context, matrixServer spec.ServerName, keyRequests map[gomatrixserverlib.PublicKeyLookupRequest]spec.Timestamp) ([]gomatrixserverlib.ServerKeys, error)",
+  "url := url.URL{Scheme: \"matrix\", Host: string(matrixServer), Path: \"/_matrix/key/v2/query\"}",
+  "type keyreq struct { MinimumValidUntilTS spec.Timestamp `json:\"minimum_valid_until_ts\"` }",
+  "request := struct { ServerKeyMap map[spec.ServerName]map[gomatrixserverlib.KeyID]keyreq `json:\"server_keys\"` }{map[spec.ServerName]map[gomatrixserverlib.KeyID]keyreq{}}",
+  "for k, ts := range keyRequests {",
+  "server := request.ServerKeyMap[k.ServerName]",
+  "if server == nil {",
+  "server = map[gomatrixserverlib.KeyID]keyreq{}",
+  "request.ServerKeyMap[k.ServerName] = server",
+  "}",
+  "if k.KeyID != \"\" {",
+  "server[k.KeyID] = keyreq{ts}",
+  "}",
+  "}",
+  "requestBytes, err := json.Marshal(request)",
+  "if err != nil {",
+  "return nil, err",
+  "}",
+  "var body struct { ServerKeyList []json.RawMessage `json:\"server_keys\"` }",
+  "var res struct { ServerKeyList []gomatrixserverlib.ServerKeys }",
+  "req, err := http.NewRequest(\"POST\", url.String(), bytes.NewBuffer(requestBytes))",
+  "if err != nil {",
+  "return nil, err",
+  "}",
+  "req.Header.Add(\"Content-Type\", \"application/json\")",
+  "err = fc.DoRequestAndParseResponse(ctx, req, &body)",
+  "if err != nil {",
+  "return nil, err",
+  "}",
+  "for _, field := range body.ServerKeyList {",
+  "var keys gomatrixserverlib.ServerKeys",
+  "if err := json.Unmarshal(field, &keys); err == nil {",
+  "res.ServerKeyList = append(res.ServerKeyList, keys)",
+  "}",
+  "}",
+  "return res.ServerKeyList, nil"
+]
+
+def fclient_client_Client_LookupUserInfo : List String := [
+  "func func(ctx context.Context, matrixServer spec.ServerName, token string) (u UserInfo, err error)",
+  "url := url.URL{Scheme: \"matrix\", Host: string(matrixServer), Path: \"/_matrix/federation/v1/openid/userinfo\", RawQuery: url.Values{\"access_token\": []string{token}}.Encode()}",
+  "req, err := http.NewRequest(\"GET\", url.String(), nil)",
+  "if err != nil {",
+  "return",
+  "}",
+  "var response *http.Response",
+  "response, err = fc.DoHTTPRequest(ctx, req)",
+  "if response != nil {",
+  "defer response.Body.Close()",
+  "}",
+  "if err != nil {",
+  "return",
+  "}",
+  "if response.StatusCode < 200 || response.StatusCode >= 300 {",
+  "var errorOutput []byte",
+  "errorOutput, err = io.ReadAll(response.Body)",
+  "if err != nil {",
+  "return",
+  "}",
+  "err = fmt.Errorf(\"HTTP %d : %s\", response.StatusCode, errorOutput)",
+  "return",
+  "}",
+  "err = json.NewDecoder(response.Body).Decode(&u)",
+  "if err != nil {",
+  "return",
+  "}",
+  "userParts := strings.SplitN(u.Sub, \":\", 2)",
+  "if len(userParts) != 2 || userParts[1] != string(matrixServer) {",
+  "err = fmt.Errorf(\"userID doesn't match server name '%v' != '%v'\", u.Sub, matrixServer)",
+  "return",
+  "}",
+  "return"
+]
+
+def fclient_client_Client_SetUserAgent : List String := [
+  "func func(ua string)",
+  "fc.userAgent = ua"
+]
+
+def fclient_client__NewClient : List String := [
+  "func func(options ...ClientOption) *Client",
+  "clientOpts := &clientOptions{timeout: requestTimeout}",
+  "for _, option := range options {",
+  "option(clientOpts)",
+  "}",
+  "if clientOpts.transport == nil {",
+  "clientOpts.transport = newDestinationTripper(clientOpts.skipVerify, clientOpts.dnsCache, clientOpts.keepAlives, clientOpts.wellKnownSRV, clientOpts.allowNetworks, clientOpts.denyNetworks)",
+  "}",
+  "client := &Client{client: http.Client{Transport: clientOpts.transport, Timeout: clientOpts.timeout}, userAgent: clientOpts.userAgent}",
+  "return client"
+]
+
+def fclient_client__WithAllowDenyNetworks : List String := [
+  "func func(allowCIDRs []string, denyCIDRs []string) ClientOption",
+  "return func(options *clientOptions) { options.allowNetworks = allowCIDRs options.denyNetworks = denyCIDRs }"
+]
+
+def fclient_client__WithDNSCache : List String := [
+  "func func(cache *DNSCache) ClientOption",
+  "return func(options *clientOptions) { options.dnsCache = cache }"
+]
+
+def fclient_client__WithKeepAlives : List String := [
+  "func func(keepAlives bool) ClientOption",
+  "return func(options *clientOptions) { options.keepAlives = keepAlives }"
+]
+
+def fclient_client__WithSkipVerify : List String := [
+  "func func(skipVerify bool) ClientOption",
+  "return func(options *clientOptions) { options.skipVerify = skipVerify }"
+]
+
+def fclient_client__WithTimeout : List String := [
+  "func func(duration time.Duration) ClientOption",
+  "return func(options *clientOptions) { options.timeout = duration }"
+]
+
+def fclient_client__WithTransport : List String := [
+  "func func(transport http.RoundTripper) ClientOption",
+  "return func(options *clientOptions) { options.transport = transport }"
+]
+
+def fclient_client__WithUserAgent : List String := [
+  "func func(userAgent string) ClientOption",
+  "return func(options *clientOptions) { options.userAgent = userAgent }"
+]
+
+def fclient_client__WithWellKnownSRVLookups : List String := [
+  "func func(wellKnownSRV bool) ClientOption",
+  "return func(options *clientOptions) { options.wellKnownSRV = wellKnownSRV }"
+]
+
+def fclient_client__allowDenyNetworksControl : List String := [
+  "func func(allowNetworks, denyNetworks []string) func(_ context.Context, network string, address string, conn syscall.RawConn) error",
+  "return func(_ context.Context, network string, address string, conn syscall.RawConn) error { if network != \"tcp4\" && network != \"tcp6\" { return fmt.Errorf(\"%s is not a safe network type\", network) } host, _, err := net.SplitHostPort(address) if err != nil { return fmt.Errorf(\"%s is not a valid host/port pair: %s\", address, err) } ipaddress := net.ParseIP(host) if ipaddress == nil { return fmt.Errorf(\"%s is not a valid IP address\", host) } if !isAllowed(ipaddress, allowNetworks, denyNetworks) { return fmt.Errorf(\"%s is denied\", address) } return nil }"
+]
+
+def fclient_client__inRange : List String := [
+  "func func(ip net.IP, CIDRs []string) bool",
+  "for i := 0; i < len(CIDRs); i++ {",
+  "cidr := CIDRs[i]",
+  "_, network, err := net.ParseCIDR(cidr)",
+  "if err != nil {",
+  "continue",
+  "}",
+  "if network.Contains(ip) {",
+  "return true",
+  "}",
+  "}",
+  "return false"
+]
+
+def fclient_client__isAllowed : List String := [
+  "func func(ip net.IP, allowCIDRs []string, denyCIDRs []string) bool",
+  "if inRange(ip, denyCIDRs) {",
+  "return false",
+  "}",
+  "if inRange(ip, allowCIDRs) {",
+  "return true",
+  "}",
+  "return false"
+]
+
+def fclient_client__makeHTTPSURL : List String := [
+  "func func(u *url.URL, addr string) (httpsURL url.URL)",
+  "httpsURL = *u",
+  "httpsURL.Scheme = \"https\"",
+  "httpsURL.Host = addr",
+  "return"
+]
+
+def fclient_client__newDestinationTripper : List String := [
+  "func func(skipVerify bool, dnsCache *DNSCache, keepAlives, wellKnownSRV bool, allowCIDRs []string, denyCIDRs []string) *destinationTripper",
+  "tripper := &destinationTripper{transports: make(map[string]*destinationTripperTransport), skipVerify: skipVerify, dnsCache: dnsCache, keepAlives: keepAlives, wellKnownSRV: wellKnownSRV, dialer: newDestinationTripperDialer(allowCIDRs, denyCIDRs)}",
+  "time.AfterFunc(destinationTripperReapInterval, tripper.reaper)",
+  "return tripper"
+]
+
+def fclient_client__newDestinationTripperDialer : List String := [
+  "func func(allowNetworks []string, denyNetworks []string) *net.Dialer",
+  "if len(allowNetworks) == 0 && len(denyNetworks) == 0 {",
+  "return &net.Dialer{Timeout: time.Second * 5}",
+  "}",
+  "return &net.Dialer{Timeout: time.Second * 5, ControlContext: allowDenyNetworksControl(allowNetworks, denyNetworks)}"
+]
+
+def fclient_client_destinationTripper_RoundTrip : List String := [
+  "func func(r *http.Request) (*http.Response, error)",
+  "var err error",
+  "serverName := spec.ServerName(r.URL.Host)",
+  "resolutionRetried := false",
+  "resolutionResults := []ResolutionResult{}",
+  "retryResolution: if f.wellKnownSRV { if cached, ok := f.resolutionCache.Load(serverName); ok { if results, ok := cached.([]ResolutionResult); ok { resolutionResults = results } } if len(resolutionResults) == 0 { resolutionResults, err = ResolveServer(r.Context(), serverName) if err != nil { return nil, err } f.resolutionCache.Store(serverName, resolutionResults) } } else { resolutionResults = append(resolutionResults, ResolutionResult{Destination: r.URL.Host, Host: spec.ServerName(r.Host), TLSServerName: r.Host}) }",
+  "if len(resolutionResults) == 0 {",
+  "return nil, fmt.Errorf(\"no address found for matrix host %v\", serverName)",
+  "}",
+  "var resp *http.Response",
+  "for _, result := range resolutionResults {",
+  "u := makeHTTPSURL(r.URL, result.Destination)",
+  "r.URL = &u",
+  "r.Host = string(result.Host)",
+  "resp, err = f.getTransport(result.TLSServerName, f.dialer).RoundTrip(r)",
+  "if err == nil {",
+  "return resp, nil",
+  "}",
+  "util.GetLogger(r.Context()).Debugf(\"Error sending request to %s: %v\", u.String(), err)",
+  "}",
+  "f.resolutionCache.Delete(serverName)",
+  "if !resolutionRetried {",
+  "resolutionRetried = true",
+  "goto retryResolution",
+  "}",
+  "return nil, err"
+]
+
+def fclient_client_destinationTripper_getTransport : List String := [
+  "func func(tlsServerName string, dialer *net.Dialer) http.RoundTripper",
+  "f.transportsMutex.Lock()",
+  "defer f.transportsMutex.Unlock()",
+  "transport, ok := f.transports[tlsServerName]",
+  "if !ok {",
+  "tr := &destinationTripperTransport{Transport: &http.Transport{DisableKeepAlives: !f.keepAlives, MaxIdleConnsPerHost: 1, IdleConnTimeout: destinationTripperLifetime, TLSClientConfig: &tls.Config{ServerName: tlsServerName, InsecureSkipVerify: f.skipVerify, ClientSessionCache: tls.NewLRUClientSessionCache(0)}, Dial: dialer.Dial, DialContext: dialer.DialContext, Proxy: http.ProxyFromEnvironment, ForceAttemptHTTP2: true}}",
+  "if f.dnsCache != nil {",
+  "tr.DialContext = f.dnsCache.DialContext",
+  "}",
+  "transport, f.transports[tlsServerName] = tr, tr",
+  "}",
+  "transport.lastUsed.Store(time.Now())",
+  "return transport"
+]
+
+def fclient_client_destinationTripper_reaper : List String := [
+  "func func()",
+  "f.transportsMutex.Lock()",
+  "defer f.transportsMutex.Unlock()",
+  "for serverName, transport := range f.transports {",
+  "since := transport.lastUsed.Load().(time.Time)",
+  "if time.Since(since) > destinationTripperLifetime {",
+  "delete(f.transports, serverName)",
+  "}",
+  "}",
+  "time.AfterFunc(destinationTripperReapInterval, f.reaper)"
+]
+
+def fclient_dnscache_DNSCache_DialContext : List String := [
+  "func func(ctx context.Context, network, address string) (net.Conn, error)",
+  "host, port, err := net.SplitHostPort(address)",
+  "if err != nil {",
+  "return nil, fmt.Errorf(\"net.SplitHostPort: %w\", err)",
+  "}",
+  "retried := false",
+  "retryLookup: entry, cached := c.lookup(ctx, host)",
+  "if entry == nil {",
+  "return nil, fmt.Errorf(\"lookup failed for %q\", host)",
+  "}",
+  "for _, addr := range entry.addrs {",
+  "conn, err := c.dialer.DialContext(ctx, \"tcp\", addr.String()+\":\"+port)",
+  "if err != nil {",
+  "continue",
+  "}",
+  "return conn, nil",
+  "}",
+  "if cached && !retried {",
+  "retried = true",
+  "c.mutex.Lock()",
+  "delete(c.entries, host)",
+  "c.mutex.Unlock()",
+  "goto retryLookup",
+  "}",
+  "return nil, fmt.Errorf(\"connection failed to %q via %d addresses\", host, len(entry.addrs))"
+]
+
+def fclient_dnscache_DNSCache_lookup : List String := [
+  "func func(ctx context.Context, name string) (*dnsCacheEntry, bool)",
+  "c.mutex.Lock()",
+  "if entry, ok := c.entries[name]; ok {",
+  "if time.Now().Before(entry.expires) {",
+  "c.mutex.Unlock()",
+  "return entry, true",
+  "}",
+  "delete(c.entries, name)",
+  "}",
+  "c.mutex.Unlock()",
+  "addrs, err := c.resolver.LookupIPAddr(ctx, name)",
+  "if err != nil {",
+  "return nil, false",
+  "}",
+  "if c.size <= 0 {",
+  "return &dnsCacheEntry{addrs: addrs, expires: time.Now().Add(c.duration)}, false",
+  "}",
+  "c.mutex.Lock()",
+  "defer c.mutex.Unlock()",
+  "for ; len(c.entries) >= c.size;  {",
+  "name, ts := \"\", time.Now().Add(c.duration)",
+  "for n, e := range c.entries {",
+  "if e.expires.Before(ts) {",
+  "ts, name = e.expires, n",
+  "}",
+  "}",
+  "delete(c.entries, name)",
+  "}",
+  "entry := &dnsCacheEntry{addrs: addrs, expires: time.Now().Add(c.duration)}",
+  "c.entries[name] = entry",
+  "return entry, false"
+]
+
+def fclient_dnscache__NewDNSCache : List String := [
+  "func func(size int, duration time.Duration, allowNetworks, denyNetworks []string) *DNSCache",
+  "return &DNSCache{resolver: net.DefaultResolver, size: size, duration: duration, entries: make(map[string]*dnsCacheEntry), dialer: net.Dialer{ControlContext: allowDenyNetworksControl(allowNetworks, denyNetworks)}}"
+]
+
 def fclient_resolve__ResolveServer : List String := [
   "func func(ctx context.Context, serverName spec.ServerName) (results []ResolutionResult, err error)",
   "return resolveServer(ctx, serverName, true)"
@@ -141,6 +537,72 @@ def fclient_well_known__LookupWellKnown : List String := [
   "return wellKnownResponse, nil"
 ]
 
-def functions : List String := ["fclient/resolve.go:.ResolveServer", "fclient/resolve.go:.handleNoWellKnown", "fclient/resolve.go:.lookupSRV", "fclient/resolve.go:.resolveServer", "fclient/well_known.go:.LookupWellKnown"]
+def spec_servername__ParseAndValidateServerName : List String := [
+  "func func(serverName ServerName) (host string, port int, valid bool)",
+  "if len(serverName) == 0 {",
+  "return",
+  "}",
+  "host, port = splitServerName(serverName)",
+  "if len(host) == 0 {",
+  "return",
+  "}",
+  "if host[0] == '[' {",
+  "if host[len(host)-1] != ']' {",
+  "return",
+  "}",
+  "ip := host[1 : len(host)-1]",
+  "if net.ParseIP(ip) == nil {",
+  "return",
+  "}",
+  "valid = true",
+  "return",
+  "}",
+  "ip := net.ParseIP(host)",
+  "if ip != nil && ip.To4() != nil && !strings.Contains(host, \":\") {",
+  "valid = true",
+  "return",
+  "}",
+  "for _, r := range host {",
+  "if !isDNSNameChar(r) {",
+  "return",
+  "}",
+  "}",
+  "valid = true",
+  "return"
+]
+
+def spec_servername__isDNSNameChar : List String := [
+  "func func(r rune) bool",
+  "if r >= 'A' && r <= 'Z' {",
+  "return true",
+  "}",
+  "if r >= 'a' && r <= 'z' {",
+  "return true",
+  "}",
+  "if r >= '0' && r <= '9' {",
+  "return true",
+  "}",
+  "if r == '-' || r == '.' {",
+  "return true",
+  "}",
+  "return false"
+]
+
+def spec_servername__splitServerName : List String := [
+  "func func(serverName ServerName) (string, int)",
+  "nameStr := string(serverName)",
+  "lastColon := strings.LastIndex(nameStr, \":\")",
+  "if lastColon < 0 {",
+  "return nameStr, -1",
+  "}",
+  "portStr := nameStr[lastColon+1:]",
+  "port, err := strconv.ParseUint(portStr, 10, 16)",
+  "if err != nil {",
+  "return nameStr, -1",
+  "}",
+  "return nameStr[:lastColon], int(port)"
+]
+
+def functions : List String := ["fclient/client.go:Client.CreateMediaDownloadRequest", "fclient/client.go:Client.DoHTTPRequest", "fclient/client.go:Client.DoRequestAndParseResponse", "fclient/client.go:Client.GetServerKeys", "fclient/client.go:Client.GetVersion", "fclient/client.go:Client.LookupServerKeys", "fclient/client.go:Client.LookupUserInfo", "fclient/client.go:Client.SetUserAgent", "fclient/client.go:.NewClient", "fclient/client.go:.WithAllowDenyNetworks", "fclient/client.go:.WithDNSCache", "fclient/client.go:.WithKeepAlives", "fclient/client.go:.WithSkipVerify", "fclient/client.go:.WithTimeout", "fclient/client.go:.WithTransport", "fclient/client.go:.WithUserAgent", "fclient/client.go:.WithWellKnownSRVLookups", "fclient/client.go:.allowDenyNetworksControl", "fclient/client.go:.inRange", "fclient/client.go:.isAllowed", "fclient/client.go:.makeHTTPSURL", "fclient/client.go:.newDestinationTripper", "fclient/client.go:.newDestinationTripperDialer", "fclient/client.go:destinationTripper.RoundTrip", "fclient/client.go:destinationTripper.getTransport", "fclient/client.go:destinationTripper.reaper", "fclient/dnscache.go:DNSCache.DialContext", "fclient/dnscache.go:DNSCache.lookup", "fclient/dnscache.go:.NewDNSCache", "fclient/resolve.go:.ResolveServer", "fclient/resolve.go:.handleNoWellKnown", "fclient/resolve.go:.lookupSRV", "fclient/resolve.go:.resolveServer", "fclient/well_known.go:.LookupWellKnown", "spec/servername.go:.ParseAndValidateServerName", "spec/servername.go:.isDNSNameChar", "spec/servername.go:.splitServerName"]
 
 end VPins.C16
